@@ -36,10 +36,13 @@ public:
     { sched_point(); T old = v_; v_ = static_cast<T>(old + d); log_rmw(d == 1 ? 'A' : '?', old); return old; }
     T fetch_sub(T d, ::std::memory_order = ::std::memory_order_seq_cst) noexcept
     { sched_point(); T old = v_; v_ = static_cast<T>(old - d); log_rmw(d == 1 ? 'S' : '?', old); return old; }
-    // plain loads (unique(), use_count(), the asserts) are neither scheduling points nor logged; a plain store is a
-    // scheduling point and is logged ("W"): the model has no store event, so a trace containing one is rejected
-    operator T() const noexcept { return v_; }
-    T load(::std::memory_order = ::std::memory_order_seq_cst) const noexcept { return v_; }
+    // EVERY atomic operation is a scheduling point, plain loads and stores included (a decrement written as
+    // fetch_sub followed by a separate load must be interruptible between the two).  Loads are logged as "L" (the
+    // model ignores them: unique(), use_count()), stores as "W" (the model has no store event: such a trace is
+    // rejected).  The interleaving harness is compiled with -DNDEBUG so that the asserts of ReferenceCounter do not
+    // add a load to every operation.
+    operator T() const noexcept { sched_point(); log_rmw('L', v_); return v_; }
+    T load(::std::memory_order = ::std::memory_order_seq_cst) const noexcept { sched_point(); log_rmw('L', v_); return v_; }
     void store(T v, ::std::memory_order = ::std::memory_order_seq_cst) noexcept { sched_point(); log_rmw('W', v_); v_ = v; }
     T operator=(T v) noexcept { store(v); return v; }
 };
